@@ -1,44 +1,177 @@
-"""The twenty properties: which rules decide which clauses (see DESIGN.md section 4)."""
+"""The twenty properties: which rules decide which clauses (DESIGN.md section 4).
+
+Every check states what is decided (the structural clauses, each a necessary condition of the
+behaviour) and what is declined (clauses that quantify over runtime values no static argument in
+reach can bound)."""
 from .properties import prop
 
-prop('C16', ['K8', 'K9'],
-     'structural clauses of memory safety / recursion',
-     ['absence of all undefined behaviour'])
-prop('C03', ['K1', 'K2', 'K5', 'K8'],
-     'sibling traversals agree',
-     ['equality of produced lists for every input'])
+prop('C01', ['K1', 'M1', 'M2', 'M3', 'M7', 'T4'],
+     'Round trip, structural part. Decided from the source: every PyTreeKind switch is exhaustive '
+     '(K1); for each of the 9 container kinds the three node producers store the same metadata '
+     'shape and take the arity from the container they enumerate (M1); MakeNode reads each shape '
+     'back through the inverse access path - defaultdict(node_data[0], ...) with keys node_data[1], '
+     'deque(maxlen=node_data), node_data(*children) / node_data(children), unflatten_func(node_data, '
+     'children) - and the unflatten stack machine consumes exactly `arity` results per node (M2); '
+     'the insertion order is captured as a copy before sorting and re-imposed before filling (M3); '
+     'OrderedDict keys are taken in the OrderedDict\'s own order (M7); the Python one-level '
+     'handlers store/rebuild the same shapes (T4). These are necessary conditions of the round '
+     'trip; the behaviour itself (identity of leaves, equality of the re-flattened treespec for '
+     'every input) is not decided.',
+     ['identity of leaf objects at every position', 'equality of the re-flattened treespec',
+      'any n replacement leaves round-trip'])
+
+prop('C02', ['K5', 'K6', 'K2', 'D2', 'T2', 'M7', 'K4'],
+     'Leaf order and classification, structural part: the user predicate is consulted before the '
+     'registry and a true answer never reaches it (K5, on the CFG of all 5 classification sites); '
+     'lookup order namespace map -> global map -> struct sequence -> namedtuple with the exact '
+     'type as key and no subtype test (K6); the NoneIsLeaf / DictShouldBeSorted instantiation '
+     'chosen equals the runtime flag (K2); keys are sorted exactly when kind != OrderedDict and '
+     'the caller\'s namespace is in sorted mode (D2); the key sort has the documented three stages '
+     'with only TypeError moving on and the input order as last resort (T2); OrderedDict is '
+     'enumerated in its own order (M7); every traversal visits children left to right under its '
+     'discipline (K4).',
+     ['equal dicts flatten equally for all inputs', 'None-removal law', 'predicate idempotence'])
+
+prop('C03', ['K1', 'K3', 'K4', 'K5', 'K7', 'K8', 'F1', 'F7', 'F10', 'T4'],
+     'Sibling traversals agree, decided on the 5 x 11 arm matrix: per kind the same accessor on '
+     'the same container class, the same key pipeline, the same arity source (K3); the same '
+     'effective visiting order (K4); predicate first everywhere (K5); the same validations of a '
+     'custom flatten result with the same exception type at all five call sites (K7); the same '
+     'depth discipline (K8); the Python wrappers are thin and forward the options unchanged, the '
+     'reductions are folds over tree_leaves / tree_iter (F1, F7, F10); Python one-level handlers '
+     'agree with the engine arms (T4).',
+     ['equality of the produced lists for every input'])
+
+prop('C04', ['T5', 'N1', 'F8', 'M4', 'K4'],
+     'Paths and accessors, structural part: the path entry class per kind agrees between the '
+     'engine, the Python registry literal and accessor.py (T5); flatten-with-path, PathsImpl, '
+     'AccessorsImpl, Entries and Entry use the same entry per kind (index / key from the list that '
+     'orders the children / node_entries[i]) and AccessorsImpl types each entry with the parent\'s '
+     'type and kind (N1); entry classes hash a subset of what they compare (F8); node copies keep '
+     'node_entries (M4); the backwards walkers reverse their result (K4).',
+     ['accessor(tree) is the leaf', 'prefix-freeness of paths', 'codify/eval agreement'])
+
+prop('C05', ['F1', 'F2', 'F3', 'F4', 'W2'],
+     'tree_map family, structural part: options forwarded unchanged (F1); the six map functions, '
+     'three transpose-map and three broadcast-map functions are one normal form modulo the '
+     'declared variation points, with the extra iterable first (F2); every rest is matched by an '
+     'eager list comprehension in a statement that dominates the first possible call of func - the '
+     '"ValueError before f is called at all" clause (F3); the map object is consumed exactly once '
+     'and func is used nowhere else (F4); traverse/walk call f_leaf in the leaf arm in traversal '
+     'order and f_node once per node after its children were popped (W2).',
+     ['argument identity', 'functor laws'])
 
 prop('C06', ['H1', 'H2', 'H3'],
-     'equality and hash',
+     'Equality and hash: every value that feeds HashCombine is compared strictly by EqualTo (H1); '
+     'EqualTo strictly compares size, none_is_leaf and per node kind / arity / registration / '
+     'metadata and reads neither original_keys nor node_entries (H2); the six operators and their '
+     'bindings map to the right relation and strictness (H3).',
      ['equality semantics across construction routes'])
 
-prop('C11', ['S1', 'S2', 'K2'],
-     'pickling', ['cross-process behaviour'])
-prop('C09', ['M4'], 'broadcast', ['lub'])
-prop('C08', ['M5', 'K1'], 'inspection', ['algebra'])
-prop('C14', ['A3'], 'immutability', ['histories'])
+prop('C07', ['P1', 'P2cxx', 'P2py', 'W1', 'H3'],
+     'Prefix matching: per kind, the attributes compared by IsPrefix, FlattenUpTo, the broadcast '
+     'walker and prefix_errors equal the reference table of the property statement (P1); '
+     'structural mismatch raises ValueError only, prefix_errors constructs only ValueError, sorts '
+     'no keys with the builtin order and asserts nothing about user trees (P2); the re-ordering '
+     'branch of IsPrefix does not address the original node array with positions of the permuted '
+     'working copy (W1); <, <=, >, >=, is_suffix are wired as converses (H3).',
+     ['exactness over all pairs', 'offset arithmetic of the re-ordering branch'])
 
-prop('C17', ['L1', 'L3', 'L4', 'L5', 'T3'], 'concurrency', ['linearizability'])
+prop('C08', ['I3', 'M5', 'M6', 'F9', 'T6', 'K1'],
+     'Inspection / constructors: entry(i)/child(i) range test and normalisation dominate all uses '
+     'of the index (I3); every new treespec gets none_is_leaf and namespace from its source(s) and '
+     'passes the sanity check before it escapes (M5, 14 creation sites); children() and child() '
+     'slice with the same expressions (M6); each treespec_<kind> builds the container its name '
+     'says (F9); the Python predicates use the engine\'s formulas (T6); K1.',
+     ['count identities', 'transform/compose algebra', 'repr text'])
 
-prop('C12', ['G1', 'G2', 'G5', 'K6', 'L4'], 'registry', ['histories'])
+prop('C09', ['M4', 'P1', 'K4', 'F1', 'F2'],
+     'Broadcasting, structural part: the merge walker copies every payload field of a node (M4); '
+     'its kind x kind compatibility equals the prefix matchers\' (P1); it walks backwards with '
+     'descending loops and one final reverse (K4); the Python layer forwards options and uses the '
+     'map normal form (F1, F2).',
+     ['least upper bound', 'symmetry', 'idempotence'])
 
-prop('C15', ['E1', 'E5', 'E6', 'I2', 'A5'], 'failing callbacks', ['refcounts'])
-prop('CX1', ['I1', 'I2', 'I3', 'S3', 'A1'], 'tmp', [])
+prop('C10', ['F6', 'F2', 'F1'],
+     'Transposition, structural part: the four documented rejections dominate the regrouping; '
+     'chunk width = stride = inner_size over m*n leaves; zip(*) swaps the dimensions and '
+     'outer.unflatten / inner.unflatten consume the right side (F6); the with_path / with_accessor '
+     'variants differ only by the extra first iterable (F2); options forwarded (F1).',
+     ['involution law', 'value placement for all shapes'])
 
-prop('C05', ['F1', 'F2', 'F3', 'F4'], 'tree_map', ['functor laws'])
-prop('C10', ['F6', 'F2', 'F1'], 'transpose', ['involution'])
-prop('CX2', ['F7', 'F9', 'T6', 'K7py', 'P2py', 'K9py'], 'tmp', [])
+prop('C11', ['S1', 'S2', 'S3', 'K2'],
+     'Pickling: writer and reader use the same position -> field table and every Node field is in '
+     'it (S1); custom nodes are re-bound with the recorded namespace and the matching variant, a '
+     'null registration is rejected (S2, K2); the reader validates the shapes later unchecked '
+     'reads rely on (S3).',
+     ['cross-process behaviour', 'protocols', 'post-load equality'])
 
-prop('C13', ['D1', 'D2', 'D3', 'K2'], 'dict order', ['nestings'])
-prop('CX3', ['G3', 'G4', 'K6py', 'T5'], 'tmp', [])
+prop('C12', ['G1', 'G2', 'G3', 'G4', 'G5', 'L4', 'K6', 'K6py'],
+     'Registry: validation dominates mutation and nothing fallible follows the first mutation '
+     '(G1); no C-API failure result is ignored (G2); the Python mirror is written only after the '
+     'engine call, under the lock, with the same key, by exactly two functions (G3); all six entry '
+     'points validate class and namespace first (G4); references are paired (G5); check-then-act '
+     'is one exclusive region and Lookup returns by value (L4); lookup order in engine and Python '
+     'twin, and the Python listing lets the namespace entry win (K6, K6py).',
+     ['behaviour after arbitrary histories'])
 
-prop('C18', ['T1', 'T2', 'F8', 'T5', 'T6', 'K7py', 'T3'], 'twins', ['all inputs'])
+prop('C13', ['D1', 'D2', 'D3', 'K2'],
+     'Dict-order mode: the context manager saves the namespace\'s own flag in the same locked '
+     'block as the switch and restores exactly it in a finally, on every path (D1); all four '
+     'traversals consult the mode of the caller\'s namespace with global inheritance and never '
+     'sort OrderedDict (D2, K2); set/query shapes (D3).',
+     ['restoration over all nestings (follows from D1 by an induction the checker does not make)'])
 
-prop('C19', ['DC1', 'DC2', 'DC3', 'DC4', 'DC5', 'G4', 'F8'], 'dataclasses', ['all layouts'])
-prop('C20', ['R1', 'R2', 'R3', 'F1'], 'ravel', ['numerical inverse'])
+prop('C14', ['A1', 'A3', 'A5', 'G5', 'M3'],
+     'Immutability / aliasing / GC: inspection methods return fresh containers and all bound '
+     'methods are const (A1); tp_traverse visits every Python object a node holds and the fields '
+     'are owning types (A3); in-place mutators are applied only to objects created by the same '
+     'call (A5); key lists are copies (M3); registry references are paired (G5).',
+     ['observational immutability over histories'])
 
-prop('CX4', ['K3', 'K4', 'K7', 'M1', 'M2', 'M3', 'M6', 'M7', 'T4'], 'tmp', [])
+prop('C15', ['E1', 'E2', 'E3', 'E4', 'E5', 'E6', 'K7', 'I2', 'A5'],
+     'Failing callbacks, structural part: guard sets are cleaned on every exit (E1); raw owned '
+     'references are released on every path (E2); stealing sinks get owned references (E3); no '
+     'user code between allocation and fill of a tuple/list (E4); only the TypeError fallbacks of '
+     'the key sort swallow (E5); only documented exception types are thrown (E6); malformed custom '
+     'results raise RuntimeError (K7); no error-swallowing lookup on user dicts (I2); a failing '
+     'call leaves its operands untouched (A5).',
+     ['reference-count equality after a fault at every k'])
 
-prop('C07', ['P1', 'P2cxx', 'P2py', 'W1', 'H3'], 'prefix', ['exactness'])
+prop('C16', ['K8', 'K9', 'K9py', 'I1', 'I2', 'I3', 'S3'],
+     'Memory safety / recursion, structural part: the three forward traversals share one depth '
+     'discipline (K8); every recursive cycle of the engine call graph is bounded by '
+     'MAX_RECURSION_DEPTH (K9) and Python-level recursion over tree depth is enumerated (K9py); no '
+     'unchecked index into a list the user can shrink while user code runs in the loop (I1); '
+     'nullable C-API results are tested (I2); index guards (I3); unpickling validates what '
+     'unchecked reads rely on (S3).',
+     ['absence of all undefined behaviour'])
 
-prop('CX5', ['E2', 'E3', 'E4', 'L2', 'W2', 'F10'], 'tmp', [])
+prop('C17', ['L1', 'L2', 'L3', 'L4', 'L5', 'T3'],
+     'Concurrency, structural part: no call that can run Python code inside a region of a C++ '
+     'mutex (these block with the GIL held) (L1); the lock graph is acyclic (L2); every access to '
+     'shared engine state is inside a region of its mutex in the right mode (L3); registry '
+     'check-then-act is atomic and Lookup returns by value (L4); the iterator keeps no reference '
+     'into its agenda across user code (L5); cache insertion is capped and paired with eviction '
+     '(T3).',
+     ['linearizability over schedules'])
+
+prop('C18', ['T1', 'T2', 'T3', 'T4', 'T5', 'T6', 'K7py', 'K6py'],
+     'Twins: both recognisers test the same atoms (T1); the key sort twin has the same stages and '
+     'last resort (T2); cached answers are evicted with the class (T3); one-level handlers (T4), '
+     'path entry classes (T5), treespec predicates (T6), flatten-result validation (K7py) and '
+     'lookup order (K6py) agree with the engine.',
+     ['agreement over all inputs and cache histories'])
+
+prop('C19', ['DC1', 'DC2', 'DC3', 'DC4', 'DC5', 'G4', 'F8'],
+     'Dataclasses / partial: field partition by the pytree_node flag with one name tuple for '
+     'children, entries and unflatten (DC1); keyword routing (DC2); rejections dominate (DC3, G4); '
+     'partial flatten/unflatten are inverse, registered globally, nested partials shimmed (DC4); a '
+     'class is processed by dataclasses.dataclass exactly once (DC5); eq/hash agreement (F8).',
+     ['all layouts and values', '__post_init__ behaviour'])
+
+prop('C20', ['R1', 'R2', 'R3', 'F1'],
+     'Ravel: each partial binds exactly the leading parameters of its target (R1); shape guard and '
+     '(mixed-dtype) dtype guard dominate the split, chunks/shapes/dtypes are joined by the strict '
+     'zip (R2); the three backends have the same structure (R3); options forwarded (F1).',
+     ['numerical inverse law', 'dtype promotion', 'offset arithmetic'])
